@@ -53,7 +53,7 @@ def spec_from_seed(run_seed, tier):
         return f"|schulz_zimm({Mw}, {Mn})|"
 
     text = re.sub(r"\|[a-z_]+\([^)]*\)\|", rep, text)
-    abort_first = {"at": rnd.choice([0, 1, 2, 3, 5, 8, 13, 21]), "how": rnd.choice(["raise", "interrupt"])} if rnd.random() < 0.12 else None
+    abort_first = {"at": rnd.choice([0, 1, 2, 3, 5, 8, 13, 21]), "how": rnd.choice(["raise", "interrupt", "value"])} if rnd.random() < 0.12 else None
     return {"kind": "atomgraph", "prop": "C18", "text": text, "tags": sorted(tags), "regenerate": rnd.choice([0, 0, 1, 2]), "abort_first": abort_first,
             "copies": rnd.randrange(1, 1000) if rnd.random() < 0.25 else None,
             "sched": {"seed": rnd.randrange(1 << 48), "choice_policy": rnd.choice(["faithful", "uniform_support", "rare", "mix", "first", "last"]),
